@@ -60,6 +60,11 @@ class World:
             dets.append((o["x"], o["y"], o["ang"], o["a"], o["h"] * r.uniform(0.95, 1.05), conf, cu) + self.vis_part(o))
             if r.random() < 0.08:                                                                  # near-duplicate detection of the same object
                 dets.append((o["x"] + r.uniform(-2, 2), o["y"] + r.uniform(-2, 2), o["ang"], o["a"], o["h"], r.uniform(0.3, 1.0), None) + self.vis_part(o))
+        if dets and r.random() < (0.2 if self.visual else 0.06):
+            # an EXACT duplicate (detector without NMS): same feature and quality, slightly shifted box -> exactly tied vote weights
+            withf = [x for x in dets if self.visual and x[7][1] is not None and (x[7][0] is None or x[7][0] > 0.7)]
+            d = r.choice(withf or dets)
+            dets.append(((d[0] + r.choice([0.25, 0.5, 1.5]), d[1]) + d[2:6] + (None,) + d[7:]))   # shifted: the executor tells detections apart by their centre
         if r.random() < 0.1:
             dets.append((r.uniform(0, self.region), r.uniform(0, self.region), None, 1.0, r.uniform(10, 30), 1.0, None) + self.vis_part(None))  # clutter
         if r.random() < 0.05 and objs:
